@@ -116,6 +116,14 @@ func (x *runner) run(sc *out.Scenario) {
 		}
 	}
 	if wellFormed(sc, o) {
+		// a call whose arguments are one well-formed element succeeds on an open
+		// session (a failure half-way would leave a partial element on the stream)
+		for i, c := range sc.Calls {
+			if c.Expect == nil || i >= len(o.Results) || out.AllOk(o.Results[i]) || hasProblemFor(o, i) {
+				continue
+			}
+			x.res.Fail(key(c, "unexpected-error"), fmt.Sprintf("call %d has a well-formed argument and the session is open, but it reports %v", i, o.Results[i]), sc)
+		}
 		for _, f := range o.WireCheck(sc) {
 			var c *out.Call
 			if f.Call >= 0 {
@@ -131,6 +139,16 @@ func (x *runner) run(sc *out.Scenario) {
 		x.cf.Add(o.Case(sc), sc)
 		x.res.Sample(sc)
 	}
+}
+
+// hasProblemFor: a panic or a hang of call i has been reported already.
+func hasProblemFor(o *out.Outcome, i int) bool {
+	for _, p := range o.Problems {
+		if p.Call == i && (p.Clause == "panic" || p.Clause == "stuck") {
+			return true
+		}
+	}
+	return false
 }
 
 func hasProblem(o *out.Outcome, cl ...string) bool {
@@ -263,20 +281,26 @@ func main() {
 	res.Write(o.Out)
 }
 
-// parkPoint chooses where the first actor of a forced schedule is parked.
+// parkPoint chooses where the first actor of a forced schedule is parked: at a
+// yield point of the library inside the lock region (just after the lock was
+// taken, after the start token, before the final flush) or in the middle of its
+// own element (inside its argument reader / WriteXML / between two tokens).
 func parkPoint(r *hx.Rand, c *out.Call) string {
+	var pts []string
 	switch c.Kind {
 	case "send", "sendelement", "sendx":
-		if r.Bool() {
-			return "send.started"
-		}
-		return "send.locked"
+		pts = []string{"send.started", "send.locked", "send.flush"}
 	case "encode":
-		return "encode.locked"
+		pts = []string{"encode.locked"}
 	case "encodeelement":
-		return "encodeelement.locked"
+		pts = []string{"encodeelement.locked"}
 	case "close":
-		return "close.locked"
+		pts = []string{"close.locked"}
+	default: // token writer, handler reply
+		pts = []string{"tokenwriter.locked", "tokenwriter.close"}
 	}
-	return "tokenwriter.locked"
+	if c.CanMid() {
+		pts = append(pts, out.MidPoint, out.MidPoint)
+	}
+	return pts[r.Intn(len(pts))]
 }
